@@ -522,3 +522,35 @@ Theorem blahut_hook_value_at_point_refuted :
        BvHook [0.5%float] 1%float false; BvStep [1%float] 1%float [0.5%float]] /\
   PrimFloat.eqb (fst (bl_half 0 [0.5%float])) 1%float = false.
 Proof. exact blahut_hook_value_lag_refuted_l. Qed.
+
+(* ===================================================================================
+   Round 3: adam() of adam.go (adam.Run, objective through AD) — not touched by fix f6a3a16,
+   which repaired adam_dense.go only.  Stop condition, hook arguments (value included) and the
+   evaluation cap hold as for the dense variant; the constraints clause holds for returns by
+   stop test and hook stop but NOT at the iteration cap (known finding F-ADAM-GENERIC-CAP). *)
+From ADV Require Import C07.ModelAdamGeneric C07.ProofsAdamGeneric.
+Section PropsAdamGeneric.
+Context {A : Type} (NM : Num A).
+Variable F : nat -> query (A := A) -> answer (A := A).
+Variable HK : nat -> hookargs (A := A) -> bool.
+Variable CS : nat -> list A -> bool.
+Theorem adam_generic_stop_condition : forall (P : ad_params) fuel x0 x tr,
+  adam_generic NM F HK CS P fuel x0 = (Converged x, tr) ->
+  wf F HK CS tr /\ stop_ok NM (ad_eps P) tr x.
+Proof. exact (adam_generic_stop_l NM F HK CS). Qed.
+Theorem adam_generic_hook_arguments : forall (P : ad_params) fuel x0,
+  hooks_ok (snd (adam_generic NM F HK CS P fuel x0)).
+Proof. exact (adam_generic_hooks_l NM F HK CS). Qed.
+(* missing for the full statement: the Cap outcome (refuted below) *)
+Theorem adam_generic_constraints_partial : forall (P : ad_params) fuel x0,
+  accepted_unless_cap (ad_cons P) (snd (adam_generic NM F HK CS P fuel x0)) (fst (adam_generic NM F HK CS P fuel x0)).
+Proof. exact (adam_generic_cons_l NM F HK CS). Qed.
+Theorem adam_generic_evaluation_cap : forall (P : ad_params) fuel x0,
+  (n_evals (snd (adam_generic NM F HK CS P fuel x0)) <= Z.to_nat (ad_maxit P))%nat.
+Proof. exact (adam_generic_cap_l NM F HK CS). Qed.
+End PropsAdamGeneric.
+Theorem adam_generic_cap_constraints_refuted :
+  exists x tr, adam_generic NumF Fsq noHK ge1 P4 10 [1%float] = (Cap x, tr) /\
+     ge1 0%nat x = false /\ submitted_and_accepted tr x = false /\
+     existsb (fun e => match e with EvEval (QGrad y) _ => list_eqb feqb x y | _ => false end) tr = false.
+Proof. exact adam_generic_cap_constraints_refuted_l. Qed.
